@@ -1,7 +1,7 @@
 import Rivaas.Model.BindTypes
 /-
 C04 — executable model of `binding` (bind.go, convert.go, source.go) as it is in the repository
-after the `fix:` commits for K04a–K04g. It follows the code function by function:
+after the `fix:` commits for K04a–K04h. It follows the code function by function:
 
   parseTagWithAliases  -> parseTag          parseStructType      -> flatten (copying index paths)
   Query/Form/Path/Header/CookieGetter, prefixGetter              -> Getter.get / getAll / has
@@ -223,9 +223,11 @@ def setMap (P : Params) (cfg : Cfg) (ty : Ty) (cur : Val) (g : Getter) (name : B
       if jv.isEmpty then .ok (wrap m1)
       else match (P jv).j with
         | none => .ok (wrap m1)
-        | some es => match jsonEntries P cfg vty es m1 with
-          | .error e => .error e
-          | .ok m2 => .ok (wrap m2)
+        | some es =>
+          if cfg.maxMap > 0 && es.length > cfg.maxMap then .error .mapSize
+          else match jsonEntries P cfg vty es m1 with
+            | .error e => .error e
+            | .ok m2 => .ok (wrap m2)
     else .ok (wrap m1)
 
 /-! ### struct metadata (parseStructType) -/
